@@ -53,6 +53,8 @@ class RunWorld:
             return getattr(self.O[t[1]], "m%d" % t[2])()
         if t[0] == "selfmeth":
             return getattr(self.self_stack[-1], "m%d" % t[1])()
+        if t[0] == "init":
+            return self.O[t[1]].__init__()
         raise ValueError(t)
 
     def play(self, site, name, script):
